@@ -10,6 +10,7 @@ import EinoV.Proofs.C02
 import EinoV.Proofs.C02Run
 import EinoV.Proofs.C02Compile
 import EinoV.Proofs.C02CompileWF
+import EinoV.Proofs.C02CompileWWF
 import EinoV.Proofs.C02Eager
 import EinoV.Proofs.C02Just
 import EinoV.Proofs.C02Complete
@@ -615,5 +616,32 @@ example : EinoV.Engine.DagRun.GraphDefWF gDiamond where
   brTo := by decide
   acyclic := ⟨fun k => if k = START then 0 else if k = "a" then 1 else if k = "b" then 2
       else if k = "c" then 2 else if k = "d" then 3 else 4, by decide, by decide⟩
+
+open EinoV.Engine.DagRun in
+/-- **well_formed_workflow_compiles_to_well_formed_runner.** The same for Workflows
+    (`Spec/WorkflowDefWF.lean`: distinct node keys other than START / END, control dependencies and
+    branch ends target existing nodes or END, a node that receives data has a control predecessor,
+    the dependency / branch-end relation is acyclic): the compiled runner satisfies `DagWF`,
+    `DagWF2` and `DagWF3`. -/
+theorem well_formed_workflow_compiles_to_well_formed_runner {V} (ops : ValOps V) (w : WorkflowDef V)
+    (h : WorkflowDefWF w) :
+    DagWF (compileW ops w) ∧ DagWF2 (compileW ops w) ∧ DagWF3 (compileW ops w) := compileW_wf ops w h
+
+open EinoV.Engine.DagRun in
+/-- **compiled_workflow_at_most_once.** For every well-formed acyclic Workflow definition, every
+    completion order and every input, no node is submitted twice. -/
+theorem compiled_workflow_at_most_once {V} (ops : ValOps V) (w : WorkflowDef V) (h : WorkflowDefWF w)
+    (pick : Pick V) (x : V) (k : Key) :
+    ((runEager ops (compileW ops w) pick x).submitted.map (·.1)).count k ≤ 1 :=
+  runEager_at_most_once ops _ (compileW_wf ops w h).1 pick x k
+
+open EinoV.Engine.DagRun in
+/-- **workflowdef_wf_check_sound.** The executable check the oracle evaluates on every generated
+    Workflow case (counted in the evidence) implies `WorkflowDefWF`. -/
+theorem workflowdef_wf_check_sound {V} (ops : ValOps V) (w : WorkflowDef V)
+    (h : workflowDefWFb ops w = true) : WorkflowDefWF w := workflowDefWFb_sound ops w h
+
+example : EinoV.Engine.DagRun.workflowDefWFb natOps wDiamond = true := by decide
+example : EinoV.Engine.DagRun.workflowDefWFb natOps wBranch = true := by decide
 
 end EinoV.C02
